@@ -233,7 +233,7 @@ func (s *seqCounters) add(seqNr uint32) {
 				nrToDrop++
 			}
 		}
-		if s._nrCounters == s.windowSize {
+		if s._nrCounters-nrToDrop == s.windowSize { // still no room for the new number
 			nrToDrop++
 		}
 		if nrToDrop > 0 {
@@ -249,21 +249,24 @@ func (s *seqCounters) add(seqNr uint32) {
 				return
 			}
 		}
-		// seqNr is not in the counters, we need to insert it
-		// We can insert in the middle and keep all previous counters
-		for i := s._nrCounters - 1; i >= 1; i-- {
-			if seqNr > s.counters[i-1].seqNr {
-				if s._nrCounters < s.windowSize {
-					// Shift counters i to s._nrCounters-1 to i+1 to s._nrCounters
-					copy(s.counters[i+1:s._nrCounters], s.counters[i:s._nrCounters-1])
-				} else {
-					// Shift counters 1 to i-1 to 0 to i-2
-					copy(s.counters[1:i], s.counters[:i-1])
-				}
-				s.counters[i-1] = seqCounter{seqNr: seqNr, count: 1}
-				return
-			}
+		// seqNr is not in the counters, we need to insert it and keep the order
+		idx := 0
+		for idx < int(s._nrCounters) && s.counters[idx].seqNr < seqNr {
+			idx++
 		}
+		if s._nrCounters < s.windowSize {
+			// Shift counters idx to s._nrCounters-1 one step up
+			copy(s.counters[idx+1:s._nrCounters+1], s.counters[idx:s._nrCounters])
+			s._nrCounters++
+		} else {
+			if idx == 0 {
+				return // Full, and older than all others
+			}
+			// Drop the oldest: shift counters 1 to idx-1 one step down
+			copy(s.counters[:idx-1], s.counters[1:idx])
+			idx--
+		}
+		s.counters[idx] = seqCounter{seqNr: seqNr, count: 1}
 	}
 }
 
